@@ -164,7 +164,10 @@ def _mcopy(lib, run, recv, args, kw):
 
 @reg('mat.astype', 'seq.astype')
 def _astype(lib, run, recv, args, kw):
-    return recv         # A1: dtype changes are invisible
+    if isinstance(recv, SeqV) and recv.kind == 'A':
+        # casting labels depends on the labels' type (it can truncate or merge them): not arm-parametric (C20, MT3)
+        raise Unsupported('arm-parametric: astype applied to arm labels')
+    return recv         # A1: dtype changes of numbers are invisible
 
 
 @reg('np.dot')
